@@ -20,9 +20,9 @@ ASSUMPTIONS = ["spans of the thread are properly nested (generator guarantees; r
 PLAN = {"quick": {"shards": 16, "cases": 8000, "timeout": 900}, "thorough": {"shards": 16, "cases": 60000, "timeout": 3400}}
 _TIES = ("shared_start", "shared_end", "identical", "touching", "zero_at_start", "zero_at_end", "zero_inside", "zero_alone", "zero_stacked")
 FLOORS = {
-    "quick": dict({"distinct_nontrivial": 1000, "builder_new_runs": 2000, "builder_old_runs": 2000, "callgraph_runs": 40},
+    "quick": dict({"distinct_nontrivial": 1000, "builder_new_runs": 2000, "builder_old_runs": 2000, "callgraph_runs": 40, "frames_not_in_id_order": 1000, "multi_rank_callgraphs": 40, "node_maps_judged": 100},
                   **{f"tie_{k}": 20 for k in _TIES}),
-    "thorough": dict({"distinct_nontrivial": 15000, "builder_new_runs": 30000, "builder_old_runs": 30000, "callgraph_runs": 500},
+    "thorough": dict({"distinct_nontrivial": 15000, "builder_new_runs": 30000, "builder_old_runs": 30000, "callgraph_runs": 500, "frames_not_in_id_order": 10000, "multi_rank_callgraphs": 400, "node_maps_judged": 1000},
                      **{f"tie_{k}": 500 for k in _TIES}),
 }
 
@@ -98,9 +98,17 @@ def judge(rows: List[List[int]], parent: Dict[int, int], depth: Dict[int, int], 
 
 
 # ------------------------------------------------------------------ running the real builders
+ROW_ORDER = {"mode": "id"}          # how the frame's rows are ordered relative to the event ids (set per case)
+
+
 def _frame(rows: List[List[int]]):
     import pandas as pd
 
+    if ROW_ORDER["mode"] == "reversed":
+        rows = rows[::-1]
+    elif ROW_ORDER["mode"] == "shuffled":
+        rows = list(rows)
+        core.rng("roworder", len(rows), rows[0] if rows else 0).shuffle(rows)
     df = pd.DataFrame({"index": [r[0] for r in rows], "ts": [r[1] for r in rows], "dur": [r[2] - r[1] for r in rows],
                        "pid": 1, "tid": 2, "stream": -1, "index_correlation": -1, "name": 0, "cat": 0})
     df = df.set_index("index", drop=False)
@@ -142,14 +150,15 @@ def gen_case(rnd, tier: str, i: Any) -> Dict[str, Any]:
     if isinstance(i, int) and i % 50 == 7:
         # a loaded G-sim trace through both CallGraph classes
         p = gen_sim.random_params(rnd, tier, autograd=False, avoid_k1=True, p_zero=rnd.choice([0.1, 0.3]),
-                                  tight=rnd.random() < 0.5, n_steps=rnd.choice([0, 1, 2]))
-        return {"kind": "callgraph", "trace": gen_sim.gen_trace(rnd, **p)}
+                                  tight=rnd.random() < 0.5, n_steps=rnd.choice([0, 1, 2]), first_step=rnd.randint(1, 300))
+        p2 = dict(p, rank=1, n_threads=rnd.choice([1, 2, 3]), max_depth=rnd.choice([1, 3, 5]))
+        return {"kind": "callgraph", "trace": gen_sim.gen_trace(rnd, **p), "trace2": gen_sim.gen_trace(rnd, **p2) if rnd.random() < 0.7 else None}
     tmax = rnd.choice([3, 5, 8, 12, 40])
     spans = gen_nest.gen_family(rnd, rnd.randint(1, rnd.choice([6, 12, 60])), tmax, rnd.choice([0.0, 0.15, 0.35]))
     if not spans:
         spans = [(0, tmax)]
     rows = gen_nest.assign_ids(rnd, spans, rnd.choice(["seq", "shuffled", "reversed", "sparse"]))
-    return {"kind": "frame", "rows": rows}
+    return {"kind": "frame", "rows": rows, "row_order": rnd.choice(["id", "id", "reversed", "shuffled"])}
 
 
 def fixed_cases(tier: str):
@@ -217,8 +226,14 @@ def run_case(case: Dict[str, Any], ctx: Any) -> core.CaseResult:
         res.nontrivial = any(ties.values())
         res.trivial_reason = "no shared endpoint instant"
         res.key = core.digest(rows)
-        res.sample = {"rows[id,ts,end]": rows}
-        _run_rows(rows, res)
+        res.sample = {"rows[id,ts,end]": rows, "row_order": case.get("row_order", "id")}
+        ROW_ORDER["mode"] = case.get("row_order", "id")
+        if ROW_ORDER["mode"] != "id":
+            res.counters["frames_not_in_id_order"] += 1
+        try:
+            _run_rows(rows, res)
+        finally:
+            ROW_ORDER["mode"] = "id"
     elif case["kind"] == "enum":
         n_fam = 0
         for fam in gen_nest.enumerate_families(case["n"], case["tmax"]):
@@ -242,15 +257,20 @@ def run_case(case: Dict[str, Any], ctx: Any) -> core.CaseResult:
 
 
 def _run_callgraph(case, ctx, res) -> None:  # noqa: ANN001
-    tr = case["trace"]
-    m = raw.model(tr["traceEvents"])
-    why = wf.well_formed(m, tr["traceEvents"])
-    if why:
-        res.discarded, res.discard_reason = True, "not well-formed: " + why.split(":")[0]
-        return
+    traces = [t for t in (case["trace"], case.get("trace2")) if t]
+    models = {}
+    for tr in traces:
+        m = raw.model(tr["traceEvents"])
+        why = wf.well_formed(m, tr["traceEvents"])
+        if why:
+            res.discarded, res.discard_reason = True, "not well-formed: " + why.split(":")[0]
+            return
+        models[tr["distributedInfo"]["rank"]] = m
+    from hv.ref import load as refload
+    ld = refload.loaded(models, False)
     d = ctx.scratch.new("c03")
     try:
-        core.write_trace_files(d, {"rank0.json": tr})
+        core.write_trace_files(d, {f"rank{tr['distributedInfo']['rank']}.json": tr for tr in traces})
         for which in ("old", "new"):
             t = drv.new_trace(d)
             ok, _ = drv.guard(res, "load_traces", t.load_traces, use_multiprocessing=False)
@@ -260,23 +280,48 @@ def _run_callgraph(case, ctx, res) -> None:  # noqa: ANN001
                 from hta.common.call_stack import CallGraph
             else:
                 from hta.common.trace_call_graph import CallGraph
-            ok, cg = drv.guard(res, f"CallGraph[{which}]", CallGraph, t, [0])
+            ranks = sorted(models)
+            ok, cg = drv.guard(res, f"CallGraph[{which}]", CallGraph, t, ranks)
             res.counters["callgraph_runs"] += 1
+            if len(ranks) > 1:
+                res.counters["multi_rank_callgraphs"] += 1
             if not ok:
                 continue
-            df = cg.trace_data.get_trace(0)
-            have = {i: (int(p), int(dp)) for i, p, dp in drv.rows(df, ["index", "parent", "depth"]) if p == p and dp == dp}
-            kept = set(df["index"].tolist())
-            for key, th in wf.host_threads([e for e in m if e.id in kept]).items():
-                rows = sorted([e.id, e.ts, e.end] for e in th)
-                parent = {i: (have[i][0] if have[i][0] >= 0 else -1) for i, _, _ in rows if i in have}
-                depth = {i: have[i][1] for i, _, _ in rows if i in have}
-                children: Dict[int, List[int]] = {}
-                for c, p in parent.items():
-                    children.setdefault(p, []).append(c)
-                judge(rows, parent, depth, children, f"CallGraph[{which}] thread {key}", res)
+            for r in ranks:
+                df = cg.trace_data.get_trace(r)
+                have = {i: (int(p), int(dp)) for i, p, dp in drv.rows(df, ["index", "parent", "depth"]) if p == p and dp == dp}
+                kept = {e.id for e in ld.kept[r]}
+                node_maps = []
+                if which == "new":
+                    node_maps.append(("rank_to_nodes", cg.rank_to_nodes.get(r, {})))
+                    for csg in cg.get_call_stacks(rank=r):
+                        node_maps.append((f"get_call_stacks(rank={r}) pid/tid {csg.identity.pid}/{csg.identity.tid}", csg.get_nodes()))
+                for key, th in wf.host_threads([e for e in models[r] if e.id in kept]).items():
+                    rows = sorted([e.id, e.ts, e.end] for e in th)
+                    parent = {i: (have[i][0] if have[i][0] >= 0 else -1) for i, _, _ in rows if i in have}
+                    depth = {i: have[i][1] for i, _, _ in rows if i in have}
+                    children: Dict[int, List[int]] = {}
+                    for c, p in parent.items():
+                        children.setdefault(p, []).append(c)
+                    judge(rows, parent, depth, children, f"CallGraph[{which}] rank {r} thread {key} (parent/depth columns)", res)
+                    ids = {i for i, _, _ in rows}
+                    for label, nodes in node_maps:
+                        if "get_call_stacks" in label and not (ids & set(nodes)) and f"/{key[1]}" not in label:
+                            continue            # another thread's stack object
+                        if "get_call_stacks" in label and f"{key[0]}/{key[1]}" not in label:
+                            continue
+                        pn = {int(i): (int(n.parent) if n.parent >= 0 else -1) for i, n in nodes.items() if int(i) in ids}
+                        dn = {int(i): int(n.depth) for i, n in nodes.items() if int(i) in ids}
+                        cn: Dict[int, List[int]] = {}
+                        for i, n in nodes.items():
+                            if int(i) in ids or int(i) < 0:
+                                kids = [int(c) for c in n.children if int(c) in ids]
+                                if kids:
+                                    cn[int(i) if int(i) >= 0 else -1] = cn.get(int(i) if int(i) >= 0 else -1, []) + kids
+                        judge(rows, pn, dn, cn, f"CallGraph[new] rank {r} thread {key} ({label})", res)
+                        res.counters["node_maps_judged"] += 1
         res.nontrivial = True
-        res.key = core.digest(tr)
-        res.sample = {"callgraph_on_gsim_events": len(tr["traceEvents"])}
+        res.key = core.digest(traces)
+        res.sample = {"callgraph_on_gsim_events": [len(tr["traceEvents"]) for tr in traces]}
     finally:
         ctx.scratch.drop(d)
